@@ -225,7 +225,7 @@ func TestC05(t *testing.T) {
 	h := hx.Begin(t, "C05", "cache")
 	cfgs := configsWhere(sim.HasDataCache)
 	rapid.Check(t, func(rt *rapid.T) {
-		p := drawProfile(rt, []gen.Profile{gen.CACHE, gen.WALK, gen.MEMSAFE}, []int{50, 30, 20})
+		p := drawProfile(rt, []gen.Profile{gen.CACHE, gen.WALK, gen.MEMSAFE, gen.OWNER}, []int{45, 27, 18, 10})
 		if p.Name == "MEMSAFE" {
 			p.MemSizes = []int{2048, 4096, 8192}
 		}
@@ -373,7 +373,7 @@ func TestC07Terminates(t *testing.T) {
 	h := hx.Begin(t, "C07", "terminates")
 	cfgs := sim.AllConfigs()
 	rapid.Check(t, func(rt *rapid.T) {
-		p := drawProfile(rt, []gen.Profile{gen.REG, gen.MEM, gen.SHADOW, gen.WALK, gen.SHADOWSLOW, gen.MEMSAFE}, []int{20, 25, 15, 10, 15, 15})
+		p := drawProfile(rt, []gen.Profile{gen.REG, gen.MEM, gen.SHADOW, gen.WALK, gen.SHADOWSLOW, gen.MEMSAFE, gen.OWNER}, []int{18, 22, 15, 10, 15, 12, 8})
 		c := gen.Program(rt, p)
 		r, ok := refRun(c)
 		if !ok {
